@@ -7,6 +7,7 @@ i.e. every finite interleaving of every number of threads calling the methods in
 -/
 import SquidModel.Ipc.RwLockStep
 import SquidModel.Ipc.RwLockAux
+import SquidModel.Ipc.RwLockExecSound
 
 namespace SquidModel.C54
 open SquidModel.Ipc.RwLock
@@ -134,6 +135,12 @@ theorem finalize_sees_not_appending {s : Sh} {ts : List PC} (hr : Reachable (s, 
     have h6 := cnt_pos_of_mem (fun p => p == .le3 || p == .ux7) ts i hi (by rcases h with h | h <;> rw [h] <;> rfl)
     simp only at h1 h4
     omega
+
+/-- The executable scheduler whose traces are compared with the real code only visits reachable configurations:
+every run exercised by the trace validation is covered by the theorems above. -/
+theorem executed_runs_are_reachable (opsPer : List (List (String × Op))) (schedule : List Nat) :
+    Reachable (cfgOf (finalSys opsPer schedule)) :=
+  finalSys_reachable opsPer schedule
 
 -- Non-vacuity: concrete reachable configurations in which the hypotheses of the theorems are met.
 /-- a writer holding exclusively is reachable (so `exclusive_excludes_shared` is about something) -/
